@@ -199,7 +199,14 @@ def gen(rng, tier, focus):
                "lrucache=true&lrucachesize=18446744073709551615", "lrucache=true&lrucachesize=18446744073709551616",
                "lrucache=true&lrucachesize=007", "lrucache=true&lrucachesize=-5", "lrucache=true&lrucachesize=1e3", "lrucache=true&lrucachesize=",
                "x=1&lrucache=true&lrucachesize=12&lrucachesize=abc", "lrucachesize=5", "lrucache=TRUE&lrucachesize=abc",
-               "lrucachesize=abc&lrucache=true&preload=true", "lrucache=true&lrucachesize=99999999999999999999", "lrucache=true&lrucachesize=0x10", "=true&preload=true"]
+               "lrucachesize=abc&lrucache=true&preload=true", "lrucache=true&lrucachesize=99999999999999999999", "lrucache=true&lrucachesize=0x10", "=true&preload=true",
+               # percent-decoding (url.QueryUnescape), '+' as space, ';' pairs dropped, malformed escapes dropped
+               "preload=%74rue", "pre%6Coad=true", "pre%6coad=tru%65", "preload=tr%75e&preload=false", "preload=%zzrue&preload=true",
+               "preload=true%", "preload=true%2", "preload=tru%2&preload=true", "%70reload=true;x=1&lrucache=true&lrucachesize=5",
+               "preload=true;", "preload=false;x&preload=true", "preload=true+", "preload=+true", "preload=t%2Brue",
+               "lrucache=true&lrucachesize=%31%32", "lrucache=true&lrucachesize=1+2", "lrucache=true&lrucachesize=%2B5",
+               "lrucache=%74%72%75%65&lrucachesize=1%30", "lrucache=true&lrucachesize=%3", "lrucache=true&lrucachesize=7%3B",
+               "lrucache=true&lrucachesize=12%26preload=true", "preload%3Dtrue", "preload%3Dtrue=true", "lrucache=true&lrucachesize=%311&lrucachesize=%G1"]
     for oi, opts in enumerate(hostile):
         h = "qc_h%d" % oi
         lines.append("SQLOPEN %s qc %s" % (h, opts))
